@@ -934,6 +934,15 @@ class Interp:
             for st in states:
                 st = st.copy()
                 if s.get('e') is not None:
+                    if s['e'].get('k') == 'Cond' and not getattr(self, 'NO_RETURN_SPLIT', False):
+                        # `return c ? a : b;` is `if (c) return a; else return b;`
+                        for ns, t in self.evalc(s['e']['c'], st):
+                            ns = ns.copy() if ns is st else ns
+                            ns.step(s['l'], 'T' if t else 'F')
+                            s2 = dict(s)
+                            s2['e'] = s['e']['t' if t else 'f']
+                            self.run(s2, [ns])
+                        continue
                     if self.is_cond(s['e']):
                         for ns, t in self.evalc(s['e'], st):
                             ns = ns.copy()
